@@ -35,11 +35,16 @@ try:
     if rc != 0: res["demo_clean_out"] = out[-1500:]
     pkgs = sorted({"./" + os.path.dirname(f) + "/" for f in meta.get("files_changed", []) if f.endswith(".go")})
     rc, out = sh(["git", "apply", os.path.join(seed, "patch.diff")], cwd=wt)
+    if rc != 0:   # the tree has moved since the seed was written (hook lines nearby): three-way merge against the seed's base
+        rc, out = sh(["git", "apply", "--3way", os.path.join(seed, "patch.diff")], cwd=wt)
+        sh(["git", "reset", "-q"], cwd=wt)
     res["patch_applies"] = rc == 0
     if rc != 0: res["patch_out"] = out[-1500:]
     # everything except the cgo packages (they need the emulator library, which is emptied in this sandbox)
     rc, lst = sh(["go", "list", "./..."], cwd=wt)
-    pk = [x for x in lst.split() if not re.search(r"/(examples|tvm|txemulator)(/|$)", x)]
+    demo_pkg = os.path.dirname(meta["demo_path"])
+    new_dir = not os.path.isdir(os.path.join("/repo", demo_pkg))      # a directory created only for the demonstration
+    pk = [x for x in lst.split() if not re.search(r"/(examples|tvm|txemulator)(/|$)", x) and not (new_dir and x.endswith("/" + demo_pkg))]
     rc, out = sh(["go", "build"] + pk, cwd=wt, e=dict(env, CGO_ENABLED="0"))
     res["builds"] = rc == 0
     if rc != 0: res["build_out"] = out[-1500:]
